@@ -1196,4 +1196,16 @@ def replay(ctx, obj):
         elif ev and ev["mismatch_free"]:
             ctx.violation("model and libmcount disagree (replay)", {"mode": "inproc", "first_disagreement": case_json(ops, res)}, False)
         return
+    prog = obj.get("program") or (obj.get("first_disagreement") or {}).get("program")
+    if prog:
+        flags = obj.get("flags") or (obj.get("first_disagreement") or {}).get("flags") or ["-pg", "-O0"]
+        lang = obj.get("lang") or ("c++" if "#include <c" in prog or "try {" in prog else "c")
+        obs = run_e2e_one(ctx, objdir, os.path.join(ctx.scratch, "replay"), "r", prog, lang, flags, timeout_rec=15)
+        probs, stream = judge_e2e(obs)
+        ctx.case(key="replay-e2e", sample={"problems": [list(p) for p in probs]})
+        ctx.log("replayed end-to-end case:", probs)
+        if [p for p in probs if p[0] != "machinery"]:
+            ctx.violation("C11 violated end-to-end (replay): %s" % probs[0][1],
+                          {"mode": "e2e", "program": prog, "lang": lang, "flags": flags, "problems": [list(p) for p in probs]}, True)
+        return
     ctx.log("replay file has no re-executable case")
